@@ -32,13 +32,18 @@ let handle (x : Sexp.t) : string =
        | PPanic PUnsupported ->
            (* outside the property: documented-unsupported operator *)
            Registry.result ~id ~status:"ok" ~key:"unsupported-op" ~detail:("panic at " ^ loc) ()
+       | PPanic k when pre_all (List.map tokenize (split_lines (big_coqstr text))) p_empty ->
+           (* theorem C18_no_crash_outside_known says this cannot happen for the model; for the code it is a new defect *)
+           Registry.result ~id ~status:"fail" ~key:("panic-outside-known-class:" ^ loc) ~detail:(Printf.sprintf "parse_str panics (%s) on an input satisfying line_pre everywhere; model: %s" msg (kind_name k)) ()
        | PPanic k ->
            Registry.result ~id ~status:"fail" ~key:("panic:" ^ loc) ~detail:(Printf.sprintf "parse_str panics (%s); model: %s" msg (kind_name k)) ()
        | _ ->
            Registry.result ~id ~status:"fail" ~key:("panic-unmodelled:" ^ loc) ~detail:(Printf.sprintf "parse_str panics (%s); model says %s" msg mclass) ())
   | Sexp.List [Sexp.Atom "err"] ->
       (match model with
-       | PErr -> Registry.result ~id ~status:"ok" ~key:"err" ()
+       | PErr ->
+           let pre = pre_all (List.map tokenize (split_lines (big_coqstr text))) p_empty in
+           Registry.result ~id ~status:"ok" ~key:"err" ~detail:(if pre then "line_pre holds" else "in KnownClass (no panic)") ()
        | _ -> Registry.result ~id ~status:"diff" ~key:"class" ~detail:("impl err, model " ^ mclass) ())
   | Sexp.List (Sexp.Atom "ok" :: fields) ->
       let (d, s) = impl_ok_of_sexp fields in
@@ -55,7 +60,14 @@ let handle (x : Sexp.t) : string =
         | o -> o
       in
       (match oracle with
-       | Some k -> Registry.result ~id ~status:"fail" ~key:("accept:" ^ k) ~detail:("accepted system is not well formed; model " ^ mclass) ()
+       | Some k ->
+           (* theorem C18_accepted_outside_known: outside the known classes only the unchecked width of
+              bad/constraint lines can make an accepted system fail sys_ok *)
+           let ls = List.map tokenize (split_lines (big_coqstr text)) in
+           let outside = pre_all ls p_empty && not (List.exists zero_sort_line ls) in
+           let benign = (k = "bad-not-bv1" || k = "constraint-not-bv1") in
+           let key = if outside && not benign then "accept-outside-known-class:" ^ k else "accept:" ^ k in
+           Registry.result ~id ~status:"fail" ~key ~detail:("accepted system is not well formed; model " ^ mclass) ()
        | None ->
            (match model with
             | POk (raw, ren) ->
